@@ -39,7 +39,7 @@ MENU = [{"name": "a", "datatype": "float64", "unit": "km / s"}, {"name": "a", "d
 
 
 def bounds(tier):
-    return {"columns_per_header": [0, 2], "column_descriptors": len(MENU), "rows": [1, 3], "read_N": [1, 4]}
+    return {"columns_per_header": [0, 2 if tier == "quick" else 3], "column_descriptors": len(MENU), "rows": [1, 3], "read_N": [1, 4]}
 
 
 def shapes(tier):
@@ -47,9 +47,15 @@ def shapes(tier):
     for n1 in (0, 1, 2):
         for n2 in (0, 1, 2):
             out.append({"what": "compare", "n1": n1, "n2": n2})
+    if tier == "thorough":
+        for n1, n2 in ((3, 0), (0, 3), (3, 1), (1, 3)):
+            out.append({"what": "compare", "n1": n1, "n2": n2})
     for n0 in (1, 2):
         for n1 in (1, 2):
             out.append({"what": "append", "n0": n0, "n1": n1})
+    if tier == "thorough":
+        out.append({"what": "append", "n0": 3, "n1": 1})
+        out.append({"what": "append", "n0": 1, "n1": 3})
     out.append({"what": "dispatch"})
     for N in (1, 2, 3, 4):
         out.append({"what": "reads", "N": N})
